@@ -118,6 +118,13 @@ def check_align(prog: Program, res: Result) -> None:
             res.ob(R, ok, fi.qualname, f"batch['{key}'] collects {item}['{KEY_OF[key]}']",
                    f"the list feeding batch key '{key}' collects `{short(arg, 40) if arg is not None else '?'}`", f"{fi.module.relpath}:{a.lineno}")
         elif key == "eff_scale":
+            # the ratio may travel on the frame dict itself:  frame["eff_scale"] = tensor(eff_scale)  ...  [f["eff_scale"] for f in frames]
+            if isinstance(arg, ast.Subscript) and isinstance(astq.const_value(arg.slice), str):
+                k_ = astq.const_value(arg.slice)
+                puts_ = [st for st in ast.walk(inner) if isinstance(st, ast.Assign) and len(st.targets) == 1 and isinstance(st.targets[0], ast.Subscript)
+                         and norm(st.targets[0].value) == item and astq.const_value(st.targets[0].slice) == k_]
+                if len(puts_) == 1:
+                    arg = puts_[0].value
             nm = astq.names_in(arg) if arg is not None else set()
             defs = [st for st in ast.walk(inner) if isinstance(st, ast.Assign) and isinstance(st.targets[0], ast.Tuple)
                     and any(norm(e) in nm for e in st.targets[0].elts) and isinstance(st.value, ast.Call)
